@@ -142,6 +142,9 @@ func (a *agg) add(prop, mode string, idx int, rep *RunReport) {
 		a.states[k] = true
 	}
 	a.ilv[rep.Ilv] = true
+	for k := range rep.IlvSet {
+		a.ilv[k] = true
+	}
 	if rep.NonTrivial {
 		a.nontriv[rep.Digest] = true
 	}
